@@ -79,6 +79,11 @@ def gen_cases(rng, tier):
         if rng.random() < 0.5:
             values.append(hexlib.gen_value(rng))
         ops = hexlib.gen_history(rng, keys, values, rng.randint(1, 25 if tier == "quick" else 60), batch_prob=0.2)
+        if rng.random() < 0.3:
+            # operations whose first database write is refused (seeded change C06m-count-before-write): "after every
+            # operation" includes one the database refused before anything was written
+            for _ in range(rng.randint(1, 3)):
+                ops.insert(rng.randint(0, len(ops)), ["failfirst", hexlib.gen_simple_op(rng, keys, values)])
         yield {"ops": ops}
 
 
@@ -137,7 +142,7 @@ def run_case(case):
         if counts:
             shared["max"] = max(shared["max"], max(counts.values()))
 
-    r = hexlib.HexRunner(res, True, observe)
+    r = hexlib.HexRunner(res, True, observe, db=hexlib.FailingDict())
     r.run(case["ops"])
     if shared["max"] >= 2:
         res.tags.add("shared-node(count>=2)")
@@ -145,5 +150,5 @@ def run_case(case):
         res.tags.add("shared-node(count>=3)")
     res.nontrivial = shared["max"] >= 2 or any(t.startswith("batch") for t in res.tags)
     res.state_key = common.sha([sorted((k.hex(), v.hex()) for k, v in r.model.items()),
-                                [op[1] for op in case["ops"] if op[0] == "batch"]])
+                                [op[1] for op in case["ops"] if op[0] in ("batch", "failfirst")]])
     return res
